@@ -46,6 +46,8 @@ def gen_session(rng, n_nodes):
     for (n, e, m) in ARR_FEATS:
         sb.create_feature(ts, "x.Own", n, "uima.cas.FSArray", elem=e, multi=m)
     sb.create_feature(ts, "x.Own", "link", "uima.cas.TOP")
+    sb.create_type(ts, "x.OwnSub", "x.Own")        # inherits every FSArray feature
+    sb.create_feature(ts, "x.OwnSub", "extra", "uima.cas.Integer")
     h = sb.cas_new(ts, text="x" * 50)
     h2 = sb.create_view(h, "v2")
     elems = []
@@ -59,7 +61,7 @@ def gen_session(rng, n_nodes):
     edges = {}   # owner label -> labels it references (for reachability)
     spec = {}    # owner label -> list of (feature, [element labels or None]) for set arrays
     for k in range(rng.randint(1, 4)):
-        o = sb.fs_new(ts, "x.Own", {"begin": 100 + k, "end": 100 + k}, xid=1000 + sb.n_fs)
+        o = sb.fs_new(ts, rng.choice(["x.Own", "x.Own", "x.OwnSub"]), {"begin": 100 + k, "end": 100 + k}, xid=1000 + sb.n_fs)
         owners.append(o); edges[o] = []; spec[o] = []
         for (fname, el, multi) in ARR_FEATS:
             r = rng.random()
@@ -88,8 +90,16 @@ def gen_session(rng, n_nodes):
     for o in owners[1:]:
         if rng.random() < 0.5:
             sb.op(op="cas.add", h=rng.choice([h, h2]), fs=o); indexed.append(o)
-        elif rng.random() < 0.8:
+        elif rng.random() < 0.5:
             sb.op(op="fs.set", fs=prev, path="link", v={"r": o}); edges[prev].append(o)
+        elif rng.random() < 0.7:
+            # reachable only as a member of an FSArray that is not the value of an FSArray-ranged feature
+            arr = sb.fs_new(ts, "uima.cas.FSArray", {"elements": {"rs": [o]}}, xid=1000 + sb.n_fs)
+            if rng.random() < 0.5:
+                sb.op(op="fs.set", fs=prev, path="link", v={"r": arr}); edges[prev].append(o)
+            else:
+                outer = sb.fs_new(ts, "uima.cas.FSArray", {"elements": {"rs": [arr]}}, xid=1000 + sb.n_fs)
+                sb.op(op="cas.add", h=h, fs=outer); indexed.append(o)
         prev = o
     # independent reachability from the indexed structures
     reach, todo = set(), list(indexed)
